@@ -8,7 +8,7 @@ type Outcome struct {
 	NonTrivial  bool
 	Probes      map[string]int
 	Fingerprint string
-	Faults      [4]int
+	Faults      [5]int
 	SimNs       int64
 	States      []uint64
 	Ops         int
@@ -103,6 +103,9 @@ func init() {
 			g.ft.FaultRate = []float64{0.1, 0.25, 0.4}[g.r.Intn(3)]
 			g.ft.FaultInv = 0.05
 			g.ft.PRetry = 0.6
+			if g.r.Intn(3) == 0 {
+				g.ft.Callbacks, g.ft.FaultCB = true, 0.15
+			}
 		}, defaultMix),
 		Eval: evalSimple("C07", func(c *Checked) bool { return c.Probes["retry_healed"] > 0 }),
 	})
@@ -115,6 +118,9 @@ func init() {
 			g.ft.PRetry = 0.5
 			g.ft.PAvail = 0.95
 			g.ft.PReenter = []float64{0, 0, 0.1}[g.r.Intn(3)]
+			if g.r.Intn(3) == 0 {
+				g.ft.Callbacks, g.ft.FaultCB = true, 0.15
+			}
 		}, Mix{Scope: 2, Provide: 8, Decorate: 3, Invoke: 12, VisStr: 0}),
 		Eval: evalSimple("C02", func(c *Checked) bool { return consumedOften(c) }),
 	})
@@ -363,6 +369,7 @@ func init() {
 		Gen: genGeneric("C20", func(g *genCtx) {
 			g.ft.FaultRate = []float64{0, 0.1, 0.3}[g.r.Intn(3)]
 			g.ft.Callbacks, g.ft.Slow = true, true
+			g.ft.FaultCB = []float64{0, 0, 0.1}[g.r.Intn(3)]
 			g.ft.PAvail = 0.95
 			if g.r.P(0.5) {
 				// declared functions: the callback Name can be checked
